@@ -21,7 +21,8 @@ def patches():
         f = os.path.join(d, "patch.diff")
         mp = os.path.join(d, "meta.json")
         if os.path.exists(f) and os.path.exists(mp):
-            out.append((os.path.basename(d), json.load(open(mp))["property"], f))
+            mm = json.load(open(mp))
+            out.append((os.path.basename(d), ",".join(mm.get("check_with", [mm["property"]])), f))
     return out
 def main():
     args = sys.argv[1:]
@@ -42,7 +43,7 @@ def main():
         if r.returncode != 0:
             print("%s: patch does not apply: %s" % (name, r.stdout[:200])); continue
         try:
-            props = [prop]
+            props = prop.split(",")
             if allprops:
                 props = ["C01","C02","C03","C04","C05","C06","C07","C08","C10","C11","C13","C14","C15"]
             res = {}
